@@ -7,10 +7,21 @@ PROFILE = {"garbage": 0.3, "ctl": 0.15, "semicolon": True, "sleep": True, "ota":
            "unicode": 0.3, "cbraise": True}
 
 
+PREFIX_NAMES = ["empty", "node", "node+children", "id-assigned", "ota-requested", "ota-offered", "ota-fetching", "sleeping",
+                "sleeping+held+desired", "sleeping+ota"]
+
+
 def jobs(tier, seed):
     if tier == "quick":
-        return make_jobs(seed, 32, 40, 70, VERSIONS, ["sync", "async"], PROFILE, mqtt_frac=0.25)
-    return make_jobs(seed, 128, 220, 90, VERSIONS, ["sync", "async"], PROFILE, mqtt_frac=0.25)
+        out = make_jobs(seed, 32, 40, 70, VERSIONS, ["sync", "async"], PROFILE, mqtt_frac=0.25)
+    else:
+        out = make_jobs(seed, 128, 220, 90, VERSIONS, ["sync", "async"], PROFILE, mqtt_frac=0.25)
+    k = 0
+    for v in VERSIONS:
+        for pn in PREFIX_NAMES:
+            k += 1
+            out.append({"kind": "extend", "version": v, "flavour": ["sync", "async"][k % 2], "mqtt": k % 5 == 0, "prefixes": [pn], "tier": tier})
+    return out
 
 
 def normal_forms(res, cfg, steps, out):
@@ -28,6 +39,8 @@ def normal_forms(res, cfg, steps, out):
 
 
 def run(job):
+    if job.get("kind") == "extend":
+        return run_extend(job)
     return run_lock_job(ID, job, normal_forms, confirm_crash=True)
 
 
@@ -43,14 +56,112 @@ def finish(agg, tier):
                 "firmware updates) over 5 versions x {threaded pump, asyncio} x {plain, MQTT}. Oracle (a): no exception leaves the "
                 "pump (crashes re-run on the real poll thread); (b): a line the library rejects changes nothing (tree, queues, "
                 "desired values, reboot flags, OTA stores, can_log), sends nothing, fires no callback, subscribes to nothing. "
+                "Bounded-exhaustive part: 10 canonical prefix states (empty, node, children with values, id-assigned, OTA "
+                "requested/offered/fetching, sleeping, sleeping with withheld replies and desired values, sleeping with OTA) x command "
+                "-1..5 x sub-type -1..max+2 x the payload corpus of the rule (plus malformed hex for stream requests) x known/unknown "
+                "node and child, one extension line each. "
                 "distinct = (version, flavour, transport, model event kind, abstract state class before, command, sub-type); "
                 "non-trivial when the prior state is non-empty or the line is rejected.",
         "floors": [("rejected_lines", c.get("rejected_lines", 0), 5000), ("accepted_lines", c.get("accepted_lines", 0), 20000),
                    ("controller_set_calls", c.get("controller_set_calls", 0), 1000),
                    ("controller_values_with_semicolon", c.get("controller_values_with_semicolon", 0), 20),
-                   ("controller_fw_calls", c.get("controller_fw_calls", 0), 300)],
+                   ("controller_fw_calls", c.get("controller_fw_calls", 0), 300),
+                   ("extension_lines", c.get("extension_lines", 0), 60000)],
         "assumptions": ["sync pump emulation = the body of SyncTasks._poll_queue (reply = run_job(); transport.send(reply)); a crash "
                         "seen there is reported only if the real threaded pump also dies on the shrunk history",
                         "'rejected' is the library's own decode/validate verdict; C03 pins that verdict to the serial API"],
         "show": ["histories", "steps", "accepted_lines", "rejected_lines", "controller_set_calls", "crashes_replayed_on_real_pump"],
     }
+
+
+# ---------------------------------------------------------------------------
+# bounded-exhaustive part: every (state class) x (command) x (sub-type in table +-2) x (payload class) x (known/unknown
+# node and child) single-line extension of canonical prefix histories
+def prefixes(version):
+    from .. import gen
+    import random
+
+    two = version >= "2.0"
+    rng = random.Random(7)
+    P = {"empty": [], "node": [["in", f"1;255;0;0;17;{version}"]],
+         "node+children": [["in", f"1;255;0;0;17;{version}"], ["in", "1;1;0;0;23;c1"], ["in", "1;2;0;0;3;c2"], ["in", "1;1;1;0;24;v"], ["in", "1;2;1;0;2;1"]],
+         "id-assigned": [["in", "255;255;3;0;3;"], ["in", "1;1;0;0;23;c1"], ["in", "1;1;1;0;24;v"]]}
+    img = bytes(range(200)).hex()
+    base = P["node+children"]
+    def w(x):
+        return f"{x & 0xff:02X}{(x >> 8) & 0xff:02X}"
+    cfg = w(1) + w(2) + w(5) + w(0x1234) + w(0x0101)
+    P["ota-requested"] = base + [["fw", [1], 1, 2, img]]
+    P["ota-offered"] = P["ota-requested"] + [["in", f"1;255;4;0;0;{cfg}"]]
+    P["ota-fetching"] = P["ota-offered"] + [["in", f"1;255;4;0;2;{w(1) + w(2) + w(0)}"]]
+    if two:
+        wake = gen.wake_line(rng, version, 1)
+        P["sleeping"] = base + [["in", wake]]
+        P["sleeping+held+desired"] = base + [["in", wake], ["set", 1, 1, 24, "want", {}], ["in", "1;255;3;0;6;0"], ["in", "1;1;2;0;24;"],
+                                             ["in", "1;3;0;0;23;late"], ["in", "1;9;1;0;0;1"]]
+        P["sleeping+ota"] = P["sleeping"] + [["fw", 1, 1, 2, img], ["in", "1;1;1;0;24;x"]]
+    return P
+
+
+def extension_lines(version, tier):
+    from .. import spec
+
+    lines = []
+    for t in (-1, 0, 1, 2, 3, 4, 5):
+        top = {0: spec.MAX_PRES, 1: spec.MAX_SET, 2: spec.MAX_SET, 3: spec.MAX_INT, 4: spec.MAX_STREAM}.get(t, {version: 2})[version]
+        for s in range(-1, top + 3):
+            rule = spec.rule_for(version, t, s)
+            if rule is None:
+                pays = ["", "1"]
+            else:
+                corp = spec.corpus(rule)
+                pays = [p for p, _ in corp] if tier == "thorough" else ([p for p, e in corp if e is True][:2] + [p for p, e in corp if e is False][:2] + [p for p, e in corp if e is None][:1])
+            if t == 4 and s in (0, 2):
+                n = 20 if s == 0 else 12
+                pays = pays + ["0" * n, "F" * n, "0" * (n - 1), "0" * (n + 1), "zz", "0" * (n - 2) + "g0", "١" * n, "01000200" + "0" * (n - 8)]
+            for p in pays:
+                combos = ((1, 1), (1, 255), (1, 7), (5, 1), (5, 255), (255, 255), (0, 0)) if tier == "thorough" else ((1, 1), (1, 255), (5, 1), (255, 255))
+                for (n, c) in combos:
+                    lines.append(f"{n};{c};{t};0;{s};{p}")
+    return lines
+
+
+def run_extend(job):
+    from ..core import Result
+    from ..lockstep import LockStep, HarnessError
+    from .. import core as _core
+
+    res = Result()
+    version, flavour, mqtt = job["version"], job["flavour"], job["mqtt"]
+    cfg = {"version": version, "flavour": flavour, "mqtt": mqtt}
+    P = prefixes(version)
+    lines = extension_lines(version, job["tier"])
+    for pname in job["prefixes"]:
+        if pname not in P:
+            continue
+        pre = P[pname]
+        ls = None
+        for line in lines:
+            if ls is None:
+                ls = LockStep(cfg, (ID,))
+                out0 = ls.run(pre)
+                if out0.crashed:
+                    res.notes.append(f"prefix {pname} crashed: {out0.crashed[1]!r}")
+                    break
+                nviol = len(ls.out.violations)
+            out = ls.run([["in", line]])
+            res.evals += 1
+            res.count("extension_lines")
+            kind = out.kinds[-1] if out.kinds else "?"
+            res.nontrivial((version, flavour, mqtt, pname, kind, line.split(";")[2], line.split(";")[4]))
+            new = [v for v in out.violations[nviol:] if v[0] == ID]
+            for (_p, sig, what, st) in new:
+                res.violation(sig, what + f" [prefix {pname}]", {"cfg": cfg, "steps": pre + [["in", line]]})
+            # a rejected line leaves the state untouched (that is the property): keep the gateway; otherwise rebuild
+            if new or out.crashed or not kind.startswith("rejected"):
+                ls = None
+            else:
+                nviol = len(ls.out.violations)
+                res.count("extension_rejected_lines")
+    res.sample({"mode": "extend", "cfg": cfg, "prefixes": job["prefixes"], "lines": len(lines), "example": lines[len(lines) // 2]})
+    return res
